@@ -392,6 +392,9 @@ type finding struct {
 }
 
 func loadFindings() []finding {
+	if os.Getenv("VERIF_NO_KNOWN") == "1" {
+		return nil // debugging aid: treat every violation as new (never used by registered commands)
+	}
 	raw, err := os.ReadFile(filepath.Join(verifDir, "known_findings.json"))
 	if err != nil {
 		return nil
